@@ -61,13 +61,26 @@ def sizes():
     return "\n".join(rows)
 
 def seeds():
-    rows = ["| seed | change | needs | result |", "|---|---|---|---|"]
+    last = {}
+    fn = V + "/dev/seed-results.tsv"
+    if os.path.exists(fn):
+        for l in open(fn):
+            f = l.rstrip("\n").split("\t")
+            if len(f) == 2:
+                last[f[0]] = f[1]
+    rows = ["| seed | change | needs | result (history) | last re-validation (`dev/seeds-all.sh`, quick tier) |", "|---|---|---|---|---|"]
     for d in sorted(glob.glob(V + "/seeded/*/meta.json")):
         m = json.load(open(d))
         name = os.path.basename(os.path.dirname(d))
         res = (m.get("verified") or {}).get("check_result", "")
         esc = lambda t: str(t).replace("|", "\\|").replace("\n", " ")
-        rows.append("| `%s` | %s | %s | %s |" % (name, esc(m.get("summary", ""))[:400], esc(m.get("needs", ""))[:400], esc(res)[:600]))
+        lv = last.get(name, "")
+        if "no-failing-input-found" in lv:
+            lv = "reported, no-failing-input-found"
+        elif lv.startswith("VIOLATION"):
+            mm = re.search(r"replay=\S*?/([^/ ]+)\.json", lv)
+            lv = "reported with failing input (`%s`)" % (mm.group(1) if mm else "replay")
+        rows.append("| `%s` | %s | %s | %s | %s |" % (name, esc(m.get("summary", ""))[:400], esc(m.get("needs", ""))[:400], esc(res)[:600], lv))
     return "\n".join(rows)
 
 def mutants():
